@@ -40,7 +40,7 @@ def _src_files():
 
 def tree_key(variant):
     h = hashlib.sha256()
-    h.update(("v4|" + variant + "|" + " ".join(VARIANTS[variant])).encode())
+    h.update(("v5|" + variant + "|" + " ".join(VARIANTS[variant])).encode())
     for p in _src_files():
         h.update(os.path.relpath(p, REPO).encode() + b"\0")
         with open(p, "rb") as f:
@@ -102,16 +102,13 @@ def build_lib(variant="def", quiet=True):
                 if os.path.exists(p):
                     shutil.copy(p, os.path.join(tmp, "internal"))
             a = os.path.join(tmp, "isa-l_crypto.a")
-            rc, out = _run(["ld", "-r", "--whole-archive", a, "-o", os.path.join(tmp, "isal_all0.o")])
-            if rc:
-                raise RuntimeError("ld -r failed: " + out[-2000:])
+            # writable sections renamed so the harness can snapshot exactly the library's statics (C18);
+            # members stay separate objects so that ld --wrap seams work on internal calls
             rc, out = _run(["objcopy", "--rename-section", ".data=isal_data,alloc,load,data,contents",
-                            "--rename-section", ".bss=isal_bss,alloc",
-                            os.path.join(tmp, "isal_all0.o"), os.path.join(tmp, "isal_all.o")])
+                            "--rename-section", ".bss=isal_bss,alloc", a, os.path.join(tmp, "isal_renamed.a")])
             if rc:
                 raise RuntimeError("objcopy failed: " + out[-2000:])
-            os.remove(os.path.join(tmp, "isal_all0.o"))
-            rc, out = _run(["nm", "-n", os.path.join(tmp, "isal_all.o")])
+            rc, out = _run(["nm", os.path.join(tmp, "isal_renamed.a")])
             open(os.path.join(tmp, "syms.txt"), "w").write(out)
             names = sorted({l.split()[2] for l in out.splitlines()
                             if len(l.split()) == 3 and l.split()[1] == "T" and l.split()[2] != "TABLE"})
@@ -161,7 +158,7 @@ def build_driver(name, sources, variant="def", wraps=(), extra=(), defines=()):
            "-Wno-deprecated-declarations", "-D" + GUARD,
            "-I" + os.path.join(lib, "include"), "-I" + os.path.join(lib, "internal"), "-I" + HARNESS]
     cmd += ["-D" + d for d in defines]
-    cmd += srcs + [os.path.join(lib, "symtab.c"), os.path.join(lib, "isal_all.o")]
+    cmd += srcs + [os.path.join(lib, "symtab.c"), "-Wl,--whole-archive", os.path.join(lib, "isal_renamed.a"), "-Wl,--no-whole-archive"]
     cmd += ["-Wl,--wrap=" + w for w in wraps]
     cmd += list(extra)
     cmd += ["-o", exe + ".tmp%d" % os.getpid()]
